@@ -142,17 +142,20 @@ Section PathCropped.
              if np.isclose(t_seg1, 0): i1 = (self.index(seg1) - 1) % len(self)
                                        seg1 = self[i1]; t_seg1 = 1
              else: i1 = self.index(seg1) *)
-  Definition loc1 (segs : list S) (T1 : K) (r1 : res (Z * K)) : res (nat * K) :=
+  (* result: (i1, t_seg1, index of the object seg1): in the last branch seg1 stays
+     self[seg1_idx] while i1 = self.index(seg1) may be an EARLIER equal segment *)
+  Definition loc1 (segs : list S) (T1 : K) (r1 : res (Z * K)) : res (nat * K * nat) :=
     if eqb N T1 (one N) then
-      (if (length segs =? 0)%nat then Err EIndex else Ok ((length segs - 1)%nat, one N))
+      (if (length segs =? 0)%nat then Err EIndex
+       else Ok ((length segs - 1)%nat, one N, (length segs - 1)%nat))
     else rbind r1 (fun kt =>
          rbind (zindex segs (fst kt)) (fun k =>
          match py_index segs k with
          | None => Err EValue
          | Some j =>
              if isclose (snd kt) (zero N)
-             then Ok (zmodn (Z.of_nat j - 1) (length segs), one N)
-             else Ok (j, snd kt)
+             then let i := zmodn (Z.of_nat j - 1) (length segs) in Ok (i, one N, i)
+             else Ok (j, snd kt, k)
          end)).
   (* where it starts:
        if T0 == 0: seg0 = self[0]; t_seg0 = 0; i0 = 0
@@ -160,17 +163,17 @@ Section PathCropped.
              if np.isclose(t_seg0, 1): i0 = (self.index(seg0) + 1) % len(self)
                                        seg0 = self[i0]; t_seg0 = 0
              else: i0 = self.index(seg0) *)
-  Definition loc0 (segs : list S) (T0 : K) (r0 : res (Z * K)) : res (nat * K) :=
+  Definition loc0 (segs : list S) (T0 : K) (r0 : res (Z * K)) : res (nat * K * nat) :=
     if eqb N T0 (zero N) then
-      (if (length segs =? 0)%nat then Err EIndex else Ok (0%nat, zero N))
+      (if (length segs =? 0)%nat then Err EIndex else Ok (0%nat, zero N, 0%nat))
     else rbind r0 (fun kt =>
          rbind (zindex segs (fst kt)) (fun k =>
          match py_index segs k with
          | None => Err EValue
          | Some j =>
              if isclose (snd kt) (one N)
-             then Ok (zmodn (Z.of_nat j + 1) (length segs), zero N)
-             else Ok (j, snd kt)
+             then let i := zmodn (Z.of_nat j + 1) (length segs) in Ok (i, zero N, i)
+             else Ok (j, snd kt, k)
          end)).
 
   (* for i in range(a, b): new_path.append(self[i]) *)
@@ -191,12 +194,14 @@ Section PathCropped.
            if t_seg1 != 0: new_path.append(seg1.cropped(0, t_seg1)) *)
   Definition path_cropped_main (segs : list S) (T0 T1 : K) (r0 r1 : res (Z * K))
              (closed : res bool) : res (list (piece S K)) :=
-    rbind (loc1 segs T1 r1) (fun l1 => let i1 := fst l1 in let t1 := snd l1 in
-    rbind (getseg segs i1) (fun s1 =>
-    rbind (loc0 segs T0 r0) (fun l0 => let i0 := fst l0 in let t0 := snd l0 in
-    rbind (getseg segs i0) (fun s0 =>
+    rbind (loc1 segs T1 r1) (fun l1 =>
+      let i1 := fst (fst l1) in let t1 := snd (fst l1) in let j1 := snd l1 in
+    rbind (getseg segs j1) (fun s1 =>
+    rbind (loc0 segs T0 r0) (fun l0 =>
+      let i0 := fst (fst l0) in let t0 := snd (fst l0) in let j0 := snd l0 in
+    rbind (getseg segs j0) (fun s0 =>
     if ltb N T0 T1 && (i0 =? i1)%nat then
-      rbind (crop s0 t0 t1) (fun c => Ok [mkPiece false i0 t0 t1 c])
+      rbind (crop s0 t0 t1) (fun c => Ok [mkPiece false j0 t0 t1 c])
     else
       rbind (crop s0 t0 (one N)) (fun c0 =>
       rbind (if ltb N T1 T0 then
@@ -208,8 +213,8 @@ Section PathCropped.
              else origs segs (i0 + 1) i1) (fun mid =>
       if neqb N t1 (zero N) then
         rbind (crop s1 (zero N) t1) (fun c1 =>
-          Ok (mkPiece false i0 t0 (one N) c0 :: mid ++ [mkPiece false i1 (zero N) t1 c1]))
-      else Ok (mkPiece false i0 t0 (one N) c0 :: mid))))))).
+          Ok (mkPiece false j0 t0 (one N) c0 :: mid ++ [mkPiece false j1 (zero N) t1 c1]))
+      else Ok (mkPiece false j0 t0 (one N) c0 :: mid))))))).
 
   (*   assert 0 <= T0 <= 1 and 0 <= T1 <= 1
        assert T0 != T1
